@@ -5,6 +5,7 @@ subset of optional hooks) is written to a real JSON file and decoded with JsonDe
 file decoded in between - while recording fixtures log every lifecycle event together with the model state at
 that moment.
 """
+import functools
 import itertools
 import json
 import os
@@ -151,6 +152,31 @@ def fx_hook_v2(params):
     LOG.append(['hook', params['name'] + '#v2', _state(params.get('model')) if 'model' in params else None])
 
 
+# hooks that are callable without being plain functions: a functools.partial, an instance with __call__, a class (the
+# hook is its construction), a bound method, a built-in method of a list-like recorder
+class _HookObj:
+    def __call__(self, params):
+        fx_hook(params)
+
+    def method(self, params):
+        fx_hook(params)
+
+
+class FxHookClass:
+    def __init__(self, params):
+        fx_hook(params)
+
+
+def _hook3(prefix, params, suffix=''):
+    fx_hook(params)
+
+
+fx_hook_partial = functools.partial(_hook3, 'p')
+fx_hook_obj = _HookObj()
+fx_hook_bound = fx_hook_obj.method
+HOOK_KINDS = {'partial': 'fx_hook_partial', 'instance': 'fx_hook_obj', 'class': 'FxHookClass', 'bound': 'fx_hook_bound'}
+
+
 def fx_swap_env(params):
     """An agent-level hook that installs a fresh environment on the model (e.g. a world sized from what was decoded so
     far): agents created afterwards join the environment the model has THEN."""
@@ -191,6 +217,8 @@ def build_desc(case):
             return ent({'func': 'fx_provide_members', 'params': {'name': name}})
         if name == case.get('swap_at'):
             return ent({'func': 'fx_swap_env', 'params': {'name': name}})
+        if case.get('hook_kind'):
+            return ent({'func': HOOK_KINDS[case['hook_kind']], 'params': {'name': name}})
         if case.get('hooks_in_main'):
             # the classes are listed with their (library) module, the hooks name no module: they are functions of
             # the main script
@@ -300,7 +328,8 @@ def decode_case(case):
     main = sys.modules['__main__']
     me = sys.modules[MOD]
     me.fx_hook = _FX_HOOK_V1
-    for name in ('FxModel', 'FxSystem', 'FxCollector', 'FxAgent', 'fx_hook', 'fx_nested', 'fx_provide', 'fx_swap_env', 'fx_provide_members'):
+    for name in ('FxModel', 'FxSystem', 'FxCollector', 'FxAgent', 'fx_hook', 'fx_nested', 'fx_provide', 'fx_swap_env',
+                 'fx_provide_members') + tuple(HOOK_KINDS.values()):
         setattr(main, name, getattr(me, name))     # resolution target when the description omits "module"
     if case.get('hooks_in_main'):
         main.fx_hook = fx_hook_main                # the main script's own function of that name
@@ -487,6 +516,9 @@ def cases(tier):
                 if at.startswith('pre_s') or at.startswith('pre_g'):
                     out.append(dict(base, late_at=at))
             out.append(dict(base, hooks_in_main=True))
+            for hk in HOOK_KINDS:
+                out.append(dict(base, hook_kind=hk))
+                out.append(dict(base, hook_kind=hk, module_key=False))
             out.append(dict(base, odd_ids=True))
             out.append(dict(base, odd_ids=True, key_order='sorted'))
             out.append(dict(base, late_model=True))
